@@ -33,9 +33,9 @@ def run(ck):
     m = ck.repo.mod(REL)
     meths = m.methods("libimp")
     ck.rule("R1", "the per-library stub cursor is bounded by the library's region", floor=1)
-    ck.rule("R2", "forward and reverse maps are written together on the allocation path, mirrored", floor=5)
-    ck.rule("R3", "a recorded address/base is returned before anything is allocated", floor=2)
-    ck.rule("R4", "the cursor advances on every allocation", floor=2)
+    ck.rule("R2", "forward and reverse maps are written together on the allocation path, mirrored", floor=2)
+    ck.rule("R3", "a recorded address/base is returned before anything is allocated", floor=1)
+    ck.rule("R4", "the cursor advances on every allocation", floor=1)
     ck.rule("R5", "the address recorded for a (library, function) key that was not known comes from the cursor only", floor=1)
     _key_rules(ck)
 
@@ -176,7 +176,7 @@ def _key_rules(ck):
     """R6: the tables of libimp are probed and filled under the same key (sa/keyconsist): a module or function name is brought to its
     canonical form BEFORE the table is consulted, never between the lookup and the store."""
     from sa.keyconsist import mismatches
-    ck.rule("R6", "a table of the import registry is filled under the very key it was probed with", floor=2)
+    ck.rule("R6", "a table of the import registry is filled under the very key it was probed with", floor=1)
     m = ck.repo.mod(REL)
     n = 0
     for q, fn in sorted(m.funcs.items()):
